@@ -45,6 +45,30 @@ PREFIX = ["!", "-", "+", "/~", "*", "**"]
 FORMS = [".", "@", "$", "&.", "~.", "=.", "&@", "~@", "=@", "~$"]
 
 
+# every construct of the grammar with a hole in every sub-position; the holes are filled with every pool value and with
+# expressions that raise (so that every error path, which builds a stack trace from the node's source position, runs)
+RAISERS = ["1/0", "zz", "nil.foo", "[].bar(1)", '"a" + 1', "Int.new", "{|| zz}()", "1.try.foo.val", "(1:2)[nil]", "<>.foo"]
+SYN_PRE = "f := {|a, b, k: 1| [a, b, k, \\0, \\_]}; o := {m: m{|a, b, k: 1| [self, a, b, k, \\0, \\_]}, v: 1}; x := 1; arr := [1, 2, 3]; "
+SYNTAX1 = [
+    "f(H)", "f(1, H)", "f(H, 1)", "f(*H)", "f(1, *H)", "f(*H, 2)", "f(**H)", "f(1, **H)", "f(1, 2, **H)", "f(1, **H)\n", "f(\n1,\n**H\n)",
+    "f(*arr, **H)", "f(k: H)", "f(1, k: H)", "f(1, k: 2, **H)", "o.m(H)", "o.m(1, **H)", "o.m(*H)", "o.m(k: H)", "o&.m(1, **H)", "o~.m(*H)",
+    "arr@m(1, **H)", "arr@(H)m", "arr$(H)+", "arr~$(H)+", "arr@^H", "arr$(0)^H", "arr@{|e| H}", "arr$(0){|a, e| H}", "arr~@{|e| H}", "arr=@{|e| H}",
+    "H@p", "H$(0)+", "H&.foo", "H~.foo", "H=.foo", "H.foo", "H.foo(1)", "H.foo(1, **{a: 1})", "H.S", "H.repr", "H.B", "H.p", "H.try.val", "H.A", "H.keys",
+    "[H]", "[1, *H]", "[*H, 1]", "{a: H}", "{'a: H}", "{H: 1}", "{a: 1, **H}", "{**H}", "{**H, **{b: 2}}", "%{H: 1}", "%{1: H}", "%{**H}", "%{1: 2, **H}",
+    "(H:1)", "(1:H)", "(1:2:H)", "(H:H)", '"a#{H}b"', '"#{H}#{H}"', "`a#{H}`",
+    "H + 1", "1 + H", "H == H", "-H", "!H", "+H", "/~H", "H[1]", "arr[H]", "arr[H:1]", "arr[1:H]", "arr[0:2:H]", "H[0:1]", "H['a]", 'o[H]',
+    "y := H", "H => y", "x += H", "x -= H", "(y := H).p", "y := H; y", "o.v := H",
+    "1 if H", "H if 1", "1 if H else 2", "H if nil else H", "return H", "raise H", "yield H", "defer H", "return 1 if H", "raise H if 1", "defer 1 if H",
+    "{|| return H}()", "{|| raise H}()", "{|| defer H; 1}()", "{|| yield H; 2}()", "<{|| yield H}>.new.next", "<{|n| yield n; recur(H)}>.new(1).A",
+    "{|a| H}(1)", "{|a: H| a}()", "{|a: 1| a}(a: H)", "m{|a| H}", "{|a| a}(H)", "{|a| \\0}(*H)", "{|k: 1| \\_}(**H)", "H(1)", "H()", "H(*arr)", "H.call(1)", "H.new", "H.new(1, 2)",
+    "H.bear", "H.bear({a: 1})", "Obj.bear(H)", "Int.bear(H).new(1)", "H.proto", "H.ancestors", "H.kindOf?(Int)", "1.kindOf?(H)", "H.which('p)", "H.callProp(1, 'p)", "Obj.callProp(H, 's)",
+    "Either.newVal(H).val", "Either.newErr(H).err", "H.try.fmap {|z| z}.val", "1.try.{|z| H}.A", "1.try.foo(H).err", "Err.new(H)", "ValueErr.new(H).msg", "assert(H)", "assertEq(H, 1)", "assertRaises(Err, H) {|| 1}",
+    "Kernel.import(H)", "Kernel.invite!(H)", "H.eval", "H.evalEnv", "JSON.dec(H)", "JSON.enc(H)",
+]
+SYNTAX2 = ["f(H, **G)", "f(*H, **G)", "f(**H, **G)", "{**H, **G}", "%{**H, **G}", "%{H: 1, G: 2}", "(H:G)", "arr[H:G]", "H[G]", "H.foo(G)", "H + G", "H@(G)foo", "H$(G)+",
+           "H if G", "[*H, *G]", "H.bear(G)", "H.callProp(G, 'p)", '"#{H}#{G}"', "{|a: H| a}(a: G)"]
+
+
 def is_ident(n):
     return re.fullmatch(r"[a-zA-Z_][a-zA-Z0-9_]*[!?]?", n) is not None
 
@@ -333,7 +357,7 @@ def main(chk):
         for a in POOL:
             add({"mode": "src", "src": "%s(%s)" % (op, a)}, "prefix")
             add({"mode": "src", "src": "[%s(%s)]" % (op, a)}, "prefix")
-            add({"mode": "src", "src": "{a: 1, %s(%s)}" % (op, a) if op == "**" else "f := {|*a, **k| [a, k]}; f(%s(%s))" % (op, a)}, "prefix")
+            add({"mode": "src", "src": "{a: 1, %s(%s)}" % (op, a) if op == "**" else "f := {|a, k: 1| [\\0, \\_]}; f(%s(%s))" % (op, a)}, "prefix")
     for a in POOL:
         for b in POOL:
             add({"mode": "src", "src": "(%s)[%s]" % (a, b)}, "index")
@@ -346,6 +370,19 @@ def main(chk):
             add({"mode": "src", "src": "(%s)%s{|x, y| [x, y]}" % (a, f)}, "litcall")
             add({"mode": "src", "src": "g := %s; [1, 2]%s^g" % (a, f)}, "varcall")
             add({"mode": "src", "src": "(%s)%s(%s){|acc, x| acc}" % (a, f, SMALL[len(a) % len(SMALL)])}, "litcall")
+    # syntax: every construct, every hole, every pool value and every raising expression
+    fills = POOL + RAISERS
+    for t in SYNTAX1:
+        for h in fills:
+            add({"mode": "src", "src": SYN_PRE + t.replace("H", "(%s)" % h)}, "syntax1")
+        if not quick:
+            for h in fills:
+                add({"mode": "src", "src": SYN_PRE + "g := {|| " + t.replace("H", "(%s)" % h) + "}; g().try.A"}, "syntax1")
+    f2 = (SMALL + RAISERS[:6]) if quick else (POOL[::2] + RAISERS)
+    for t in SYNTAX2:
+        for h in f2:
+            for g in f2:
+                add({"mode": "src", "src": SYN_PRE + t.replace("H", "(%s)" % h).replace("G", "(%s)" % g)}, "syntax2")
     # text: malformed sources and stdin
     corpus = []
     for f in sorted(glob_tests(repo))[:400]:
@@ -355,8 +392,12 @@ def main(chk):
             pass
     for s in malformed(chk.rng, corpus, 3000 if quick else 60000):
         add({"mode": "src", "src": s}, "text")
-    for i, stdin in enumerate(["", "\n", "abc", "a\nb\n", "\x00\xff", "é" * 5000, "1\n" * 300]):
-        for prog in ["<>", "<>.A", "[<>, <>, <>]", "<>@{|l| l}", "<>$(0){|a, l| a + l.len}", "`<>`.p", "<>.p; <>.p", "Kernel.argv", "<>.S.I"]:
+    long_lines = ["x" * n for n in (4095, 4096, 4097, 65535, 65536, 65537, 70000, 200000)]
+    for i, stdin in enumerate(["", "\n", "abc", "a\nb\n", "\x00\xff", "é" * 5000, "1\n" * 300, "\r\n\r\n", "a\n" + long_lines[6] + "\nb\n"] +
+                              long_lines + [l + "\n" for l in long_lines[3:]] + ["a\n" * 3 + "é" * 40000 + "\n" + "z"]):
+        for prog in ["<>", "<>.A", "[<>, <>, <>]", "<>@{|l| l}", "<>$(0){|a, l| a + l.len}", "`<>`.p", "<>.p; <>.p", "Kernel.argv", "<>.S.I",
+                     "<>.S", "[<>.S, <>.S, <>.S]", '"#{<>.S}"', "<>.S + 1", "<>.uc", "<>.lc", "[<>.uc, <>.lc, <>.S]", "<>.foo", "<>@S", "<>.A.len",
+                     "<>._iter.next", "it := <>._iter; [it.next, it.next, it.next, it.next]"]:
             add({"mode": "src", "src": prog, "stdin": stdin or "\n"}, "stdin")
 
     chk.note("sweep: %d cases (%d Go built-in properties, %d native properties, %d names, pool of %d values)" % (
@@ -364,7 +405,7 @@ def main(chk):
     res = run_cases(chk, reqs, limit_ms=1500 if quick else 4000)
     chk.note("sweep done")
 
-    hist, kinds = {}, {}
+    hist, kinds, famk = {}, {}, {}
     panics = {}
     for r in reqs:
         fam = meta[r["id"]]
@@ -380,10 +421,16 @@ def main(chk):
             kinds[k] -= 1
             kinds["memory"] = kinds.get("memory", 0) + 1
             k = "memory"
+        famk.setdefault(fam, {})
+        famk[fam][k] = famk[fam].get(k, 0) + 1
         if k in ("panic", "died"):
             site = d.get("site") or "?"
             panics.setdefault(site, []).append((r, d))
-    chk.cov["input_distribution"] = {"by_family": hist, "by_outcome": kinds}
+    chk.cov["input_distribution"] = {"by_family": hist, "by_outcome": kinds, "outcomes_by_family": famk}
+    for fam, ks in famk.items():
+        n = sum(ks.values())
+        if fam != "text" and ks.get("syntax", 0) * 2 > n:
+            problems.append("family %s: %d of %d generated programs do not parse (generator out of date with the grammar)" % (fam, ks.get("syntax", 0), n))
     chk.cov["discarded_outside_proviso"] = {k: kinds.get(k, 0) for k in ("fuel", "timeout", "memory", "stack")}
     chk.cov["go_builtin_properties"] = nprops_b
     chk.cov["native_properties"] = nprops_n
@@ -434,12 +481,12 @@ def main(chk):
         chk.fail(broken, {"theorem_file": "coq/Props/C01.v", "detail": broken}, no_input=True)
     for p in problems:
         chk.fail(p, {"problem": p}, no_input=True)
-    chk.cov["trusted_base"] = [
+    chk.cov["trusted_base"] += [
         "Coq 8.16.1 kernel (coqc; vm_compute for the table instances)",
         "translator harness/dumpguards.go (Go AST -> guard IR; recognition of guard helpers by their first statement; over-approximation rules in its header)",
         "harness/crash.go + evaluator fuel hook (build tag verif) for the sweep",
         "Go runtime, goyacc driver, standard library (regexp, strconv, encoding/json, net/http) are outside every model"]
-    chk.cov["checker_cmd"] = "coq_makefile/make (Props/C01.vo) + coqc gen/GuardData.v"
+    chk.cov["checker_cmd"] += " + coqc gen/GuardData.v"
     chk.assumptions += ["a Go function reached from Pangaea with an arbitrary argument count has the signature of object.BuiltInFunc",
                   "cases that exhaust fuel / 1.5 s / 1 GiB / 256 MiB of stack are outside the property (its proviso) and are discarded"]
     return chk.finish()
